@@ -21,7 +21,7 @@ Record closed : Prop := {
   c_dropped : forall t k w, I w -> lookup_storage t w = LDead -> I (rn_dropped t k w);
   c_missing : forall t k w, I w -> lookup_storage t w = LNoStorage -> I (rn_despawn_missing t k w);
   c_despawn : forall t w, I w -> I (despawn t w);
-  c_cbbump : forall t cb b w, I w -> I (cb_bump t cb b w);
+  c_cbbump : forall t cb b w, I w -> alookup t (cbs w) = Some cb -> I (cb_bump t cb b w);
   c_oncefin : forall t tk w, I w -> I (once_finish t tk w);
   c_body : forall sd t r c w, I w -> I (body_begin P sd t r c w);
   c_clear : forall w, I w -> I (clear_trackers w);
@@ -128,10 +128,10 @@ Proof.
     destruct (alookup t (cbs w)) as [cb|] eqn:EC; [|discriminate E].
     destruct (cb_once cb) as [tk|].
     + destruct (cb_taken cb); [inversion E; subst; exact Hw|].
-      bind_inv E w1 E1. assert (H1 : I w1) by (eapply IH; [|exact E1]; apply (c_cbbump HC); exact Hw).
+      bind_inv E w1 E1. assert (H1 : I w1) by (eapply IH; [|exact E1]; apply (c_cbbump HC); [exact Hw|exact EC]).
       bind_inv E w2 E2. assert (H2 : I w2) by (eapply IH; [|exact E2]; apply (c_despawn HC); exact H1).
       inversion E; subst. apply (c_oncefin HC). exact H2.
-    + eapply IH; [|exact E]. apply (c_cbbump HC). exact Hw.
+    + eapply IH; [|exact E]. apply (c_cbbump HC); [exact Hw|exact EC].
   - (* IBody *)
     cbn zeta in E. set (sd := sys_or_default P t) in *.
     assert (Hb : I (body_begin P sd t runno captured w)) by (apply (c_body HC); exact Hw).
